@@ -637,6 +637,27 @@ class FileScan:
                     return self.emit(n, "KPrivate", src(n) + "   [object-level generator, audited: %s]" % AUDITED_STATEFUL[key][:50])
                 return self.emit(n, "KPersistentAcrossCalls", src(n) + "   [constructed in %s: state carries over between calls on the same object]" % where)
             return self.emit(n, kind)
+        # OPERATING-SYSTEM ENTROPY / TIME: a generator (re)seeded without a seed, or raw entropy.  Non-deterministic even inside
+        # torch.random.fork_rng() and even on a private generator
+        no_seed = not n.args and not n.keywords or (len(n.args) == 1 and isinstance(n.args[0], ast.Constant) and n.args[0].value is None)
+        entropy = None
+        if parts and parts[0] in self.mod_torch and parts[-1] == "seed":
+            entropy = "torch.seed() RESEEDS the generator from OS entropy (it is not a getter)"
+        elif len(parts) == 2 and parts[0] in self.mod_random and parts[1] == "seed" and no_seed:
+            entropy = "random.seed() without a seed: OS entropy / time"
+        elif len(parts) == 3 and parts[0] in self.mod_numpy and parts[1] == "random" and parts[2] == "seed" and no_seed:
+            entropy = "np.random.seed() without a seed: OS entropy"
+        elif d in ("os.urandom", "os.getrandom", "uuid.uuid1", "uuid.uuid4") or (parts and parts[0] == "secrets"):
+            entropy = "operating-system entropy"
+        elif isinstance(f, ast.Attribute) and f.attr == "seed" and no_seed and self.is_genexpr(f.value) \
+                and not self.is_global_module_value(f.value):
+            entropy = "<generator>.seed() without a seed: OS entropy / time"
+        if entropy:
+            self.claim(f)
+            self.claimed.add(n)
+            self.sites.append({"scope": self.scope(n), "line": n.lineno, "kind": "KUnseeded",
+                               "what": "%s   [%s]" % (src(n)[:90], entropy), "_defs": self.enclosing_defs(n)})
+            return None
         # stdlib random module
         if len(parts) == 2 and parts[0] in self.mod_random:
             self.claim(f)
@@ -681,6 +702,11 @@ class FileScan:
         if meth == "manual_seed" and self.is_genexpr(recv) and not self.is_global_module_value(recv):
             self.claimed.add(n)
             if len(n.args) == 1 and (seedlike(n.args[0]) or isinstance(n.args[0], ast.Constant)):
+                return self.emit(n, "KPrivate")
+            raise Unclassified("%s:%d: `%s`: seed expression not recognised" % (self.rel, n.lineno, src(n)))
+        if meth == "seed" and self.is_genexpr(recv) and not self.is_global_module_value(recv):
+            self.claimed.add(n)
+            if len(n.args) >= 1 and (seedlike(n.args[0]) or isinstance(n.args[0], ast.Constant)):
                 return self.emit(n, "KPrivate")
             raise Unclassified("%s:%d: `%s`: seed expression not recognised" % (self.rel, n.lineno, src(n)))
         # draws on generator-bound receivers
